@@ -118,6 +118,67 @@ theorem uniq_length_perm (l1 l2 : List Nat) (h : l1.Perm l2) :
   apply (List.perm_ext_iff_of_nodup (nodup_uniq _) (nodup_uniq _)).mpr
   intro a; rw [mem_uniq, mem_uniq]; exact h.mem_iff
 
+theorem uniq_map_inj (f : Nat → Nat) (hf : Function.Injective f) (l : List Nat) :
+    uniq (l.map f) = (uniq l).map f := by
+  induction l with
+  | nil => rfl
+  | cons a l ih =>
+    simp only [List.map_cons, uniq, ih, List.filter_map, List.cons.injEq, true_and]
+    congr 1
+    apply List.filter_congr
+    intro b _
+    by_cases h : b = a
+    · subst h; simp
+    · have : f b ≠ f a := fun h' => h (hf h')
+      show (f b != f a) = (b != a)
+      rw [bne_iff_ne.mpr this, bne_iff_ne.mpr h]
+
+/-! ### the derived statement-level leaves against the single-expression leaves -/
+
+section leaves
+variable {α : Type} [Add α] [Sub α] [Mul α] [Div α] [Neg α] [Zero α] [One α] [NatCast α]
+variable [LT α] [DecidableLT α] [LE α] [DecidableLE α] [Max α] [Min α]
+
+/-- the source of `_covariance_eye` from `b2 = min(d2, b2)` to `return` is: `min`, guard on
+    `d2 > 0`, combination (else `s`), and the rescale applied to *both* branches -/
+theorem lwTail_eq (s d2 b2raw m e n dof : α) :
+    lwTail s d2 b2raw m e n dof
+      = lwRescale (if ((0 : Nat) : α) < d2 then lwCombine (lwB2min d2 b2raw) d2 m e s else s) n dof := by
+  unfold lwTail lwRescale lwCombine lwB2min
+  split <;> rfl
+
+/-- the guard statement of `_covariance_diag`: clip of the ratio when `denom > 0`, else `0` -/
+theorem ssLambda_eq (num den : α) :
+    ssLambda num den = if ((0 : Nat) : α) < den then ssClip (ssLambRaw num den) else ((0 : Nat) : α) := by
+  unfold ssLambda ssClip ssLambRaw
+  split <;> rfl
+
+/-- the source of `_covariance_diag` from the guard to `return` -/
+theorem ssTail_eq (num den s e mk : α) :
+    ssTail num den s e mk = ssShrink s (ssScaling e (ssLambda num den) mk) := by
+  unfold ssTail ssShrink ssScaling ssLambda
+  split <;> rfl
+
+theorem dofPick_eq (dof : Option α) (nat : α) : dofPick dof nat = dof.getD nat := by
+  cases dof <;> rfl
+
+theorem dofPickUnb_eq (dof : Option α) (n c : Nat) :
+    dofPickUnb dof n c = dof.getD ((dofUnbalanced n c : Nat) : α) := by
+  cases dof <;> rfl
+
+variable [Rsa.HasSqrt α]
+
+theorem estimateC_full (rows : List (Row α)) (dof : α) (p : Nat) :
+    estimateC .full rows dof p = covFullC rows dof := rfl
+theorem estimateC_diag (rows : List (Row α)) (dof : α) (p : Nat) :
+    estimateC .diag rows dof p = varianceC rows dof := rfl
+theorem estimateC_eye (rows : List (Row α)) (dof : α) (p : Nat) :
+    estimateC .eye rows dof p = covEyeC rows dof p := rfl
+theorem estimateC_sdiag (rows : List (Row α)) (dof : α) (p : Nat) :
+    estimateC .sdiag rows dof p = covSDiagC rows dof p := rfl
+
+end leaves
+
 section field
 variable {K : Type} [Field K] [LinearOrder K] [IsStrictOrderedRing K]
 
@@ -199,7 +260,7 @@ def quad (p : Nat) (S : Mat K) (v : Nat → K) : K :=
   ∑ j ∈ Finset.range p, ∑ k ∈ Finset.range p, v j * S j k * v k
 
 theorem eyeB2raw_nonneg (rows : List (Row K)) (p : Nat) : 0 ≤ eyeB2raw rows p := by
-  unfold eyeB2raw lwB2 rsum2
+  unfold eyeB2raw lwB2 lwB2term rsum2
   apply div_nonneg _ (Nat.cast_nonneg _)
   rw [rsum_eq_finset]
   apply Finset.sum_nonneg; intro j _
@@ -220,7 +281,7 @@ theorem eyeB2raw_nonneg (rows : List (Row K)) (p : Nat) : 0 ≤ eyeB2raw rows p 
     nlinarith [cs]
 
 theorem eyeD2_nonneg (rows : List (Row K)) (p : Nat) : 0 ≤ eyeD2 rows p := by
-  unfold eyeD2 rsum2
+  unfold eyeD2 lwD2term rsum2
   rw [rsum_eq_finset]
   apply Finset.sum_nonneg; intro j _
   rw [rsum_eq_finset]
@@ -306,11 +367,13 @@ theorem estimateC_congr (m : Method) (r1 r2 : List (Row K)) (dof : K) (p : Nat)
   have hv : sdVarHat r1 dof = sdVarHat r2 dof := by
     funext a b
     simp only [sdVarHat, sdS2Mean, sdSMean, sdStd, sdVar, sdS, covFullC, h1, h2, h3]
+  have hdeg : sdDegenerate r1 dof p = sdDegenerate r2 dof p := by
+    unfold sdDegenerate sdVar sdS; rw [h1]
   funext j k
   cases m <;>
-  simp only [hv, estimateC, covFullC, varianceC, covEyeC, covSDiagC, sdS, eyeS, eyeD2, eyeB2, eyeB2raw,
-    eyeM, sdLambda, sdNum, sdDen, sdVarHat, sdSMean, sdS2Mean, sdStd, sdVar, h1, h2, h3]
-  rfl
+  simp only [hv, hdeg, estimateC_full, estimateC_diag, estimateC_eye, estimateC_sdiag, covFullC, varianceC,
+    covEyeC, covSDiagC, sdS, eyeS, eyeD2, eyeB2, eyeB2raw,
+    eyeM, sdLambda, sdNumG, sdDenG, sdNum, sdDen, sdVarHat, sdSMean, sdS2Mean, sdStd, sdVar, h1, h2, h3]
 
 theorem balancedR_spec (gs : List (List (Row K))) (R : Nat) (h : balancedR gs = some R) :
     ∀ g ∈ gs, g.length = R := by
